@@ -25,6 +25,12 @@ FLAVOURS = {
     'form': "a documented but rarely used way of writing the same thing (dictionary vs keyword configuration, tuple vs "
             "list, string vs dictionary answers, nested structures, inferred vs configured answers, option aliases, "
             "numpy values where Python numbers are usual)",
+ 'errorpath': "an error or exception path: the change is only visible when some call raises or fails part-way (clean-up "
+                 "skipped, state half-updated, an error of the wrong class or with the wrong text, an error swallowed), or in "
+                 "the call that FOLLOWS such a failure",
+    'numeric': "a numeric edge: floating-point rounding, exact ties, values that are equal only up to rounding, extreme "
+               "magnitudes (1e-300, 1e300), signed zeros, integers versus floats versus numpy scalars, complex numbers with "
+               "zero imaginary part",
     'refactor': "a plausible refactoring / optimisation / tidy-up whose behaviour differs from the original only in a "
                 "corner that needs a specific configuration and input to be seen",
 }
